@@ -50,6 +50,8 @@ type Task struct {
 	Steps   int
 	Op      string // label of the operation the task is parked at
 	adopted bool
+	num     uint64 // numeric goroutine id (adopted tasks only)
+	fresh   bool   // adopted (and parked) during the current call: a Block must return so that its caller re-checks
 }
 
 //go:norace
@@ -227,15 +229,50 @@ func (s *Sched) self() *Task {
 	raceDisable()
 	s.mu.Lock()
 	t := s.gidLookup(g)
+	if t != nil && t.adopted {
+		// An adopted goroutine (one that library code started, e.g. net/http's per-connection
+		// goroutine) ends without telling the scheduler, and the runtime recycles its g for a later
+		// goroutine: the address alone does not identify it. Its numeric id does (slow, but adopted
+		// goroutines are few).
+		if n := numericGoid(); n != t.num {
+			t = nil
+		}
+	}
+	fresh := false
 	if t == nil {
-		t = &Task{ID: s.nextID, Name: "adopted", gid: g, wake: make(chan struct{}, 1), adopted: true}
+		t = &Task{ID: s.nextID, Name: "adopted", gid: g, wake: make(chan struct{}, 1), adopted: true, num: numericGoid()}
 		s.nextID++
 		s.tasks = append(s.tasks, t)
 		s.gidInsert(g, t)
+		fresh = true
 	}
 	s.mu.Unlock()
 	raceEnable()
+	if fresh {
+		// A goroutine that library code started has been running on its own, in parallel with the
+		// task that is being stepped. From its first contact with a sim primitive on it is a task
+		// like any other: it parks here and does nothing until the scheduler picks it, so the order
+		// of its effects relative to other tasks is the scheduler's choice, not the Go runtime's.
+		s.park(t, "adopt")
+		t.fresh = true
+	}
 	return t
+}
+
+// numericGoid parses the goroutine number out of the stack header ("goroutine 123 [running]").
+//
+//go:norace
+func numericGoid() uint64 {
+	var buf [40]byte
+	n := runtime.Stack(buf[:], false)
+	var id uint64
+	for _, c := range buf[len("goroutine "):n] {
+		if c < '0' || c > '9' {
+			break
+		}
+		id = id*10 + uint64(c-'0')
+	}
+	return id
 }
 
 // Self returns the current task, or nil outside a simulation / on the scheduler goroutine.
@@ -267,6 +304,10 @@ func YieldOp(op string) {
 	}
 	t := s.self()
 	if t == nil {
+		return
+	}
+	if t.fresh {
+		t.fresh = false // it has just been parked and released: that was the scheduling point
 		return
 	}
 	s.park(t, op)
@@ -321,6 +362,12 @@ func Block(q *WaitQ, obj interface{}, op string) {
 	t := s.self()
 	if t == nil {
 		panic("simrt: the scheduler goroutine would block on a sim primitive: " + op)
+	}
+	if t.fresh {
+		// the caller decided to block before this goroutine became a task and was parked; what it
+		// waits for may have happened meanwhile: return (callers re-check their condition in a loop)
+		t.fresh = false
+		return
 	}
 	raceDisable()
 	s.mu.Lock()
